@@ -909,6 +909,18 @@ pub fn generate(seed: u64, knobs: &Knobs) -> C10Scenario {
                             };
                         }
                     }
+                    5 if parts.bundle.is_some() && rh.chance(1, 2) => {
+                        // only an option of the bundle section changes
+                        if rh.chance(1, 2) || parts.bundle_sources || !parts.bundle_luau_aliases.is_empty() {
+                            parts.bundle_modules_identifier = match parts.bundle_modules_identifier.as_deref() {
+                                None => Some("__VERIF_MODULES".to_owned()),
+                                Some("__VERIF_MODULES") => Some("__OTHER".to_owned()),
+                                _ => None,
+                            };
+                        } else {
+                            parts.bundle_no_luaurc = !parts.bundle_no_luaurc;
+                        }
+                    }
                     5 => {
                         if parts.bundle.is_some() {
                             parts.bundle_excludes = if parts.bundle_excludes.is_empty() {
